@@ -75,6 +75,18 @@ def conform_server(chk):
         chk.note("conformance drift: the recorded server execution is not a behaviour of ServerStack.tla -- %s at line %d "
                  "(idle_timeout=%d ms): %s" % (clause, at, it, json.dumps(line)[:200]))
     chk.add(server_traces_validated=ok, server_lines_matched=lines_ok, server_trace_drift=len(drift))
+    # the control loops INSIDE the server (first loop, loops reloaded on a send, loops resumed at a restart) against
+    # Engine.tla, with the same trace spec as the engine family (TraceEngine.tla).  The projection of a server trace onto
+    # one loop is approximate where the stack races with the loop (a send racing a release, a second handler in the same
+    # process): such loops are counted as not aligned, per failing clause, and not reported as drift.
+    try:
+        from harness.checks import _engine as eg
+        ets = sv.take_engine_traces()
+        items = [("server:%04d" % (abs(hash(json.dumps(prog, sort_keys=True))) % 10000), prog, (), tr, []) for (prog, tr) in ets if tr]
+        if items:
+            eg.conform_engine(chk, items, name="srv_engine", prefix="server_engine", quiet=True)
+    except Exception as ex:  # noqa: BLE001  (evidence only)
+        chk.note("server loops vs Engine.tla not evaluated: %s" % (str(ex)[:200]))
     return ok, drift
 
 
